@@ -56,7 +56,11 @@ type CRLEntrySpec struct {
 
 // CRLSpec is the fully resolved description of one CRL.
 type CRLSpec struct {
-	SignerKind  string // "issuer" | "other_ca" | "unrelated" | "sigflip"
+	SignerKind  string // "issuer" | "other_ca" | "unrelated" | "sigflip" | "stale_sig"
+	ForeignSig  []byte // stale_sig: signature value of another (genuine) list, used instead of a signature over this content
+	ForeignTBS  string // hash of the content ForeignSig covers
+	Sig         []byte // filled by EncodeCRL: the signature value over this content
+	TBSHash     string // filled by EncodeCRL
 	SignerKey   *Key
 	IssuerName  []byte
 	ThisUpdate  time.Time
@@ -141,7 +145,11 @@ func EncodeCRL(s *CRLSpec) []byte {
 	}
 	tbsDER := mustMarshal(tbs)
 	ai2, sig := signWith(s.SignerKey, tbsDER)
-	if s.SignerKind == "sigflip" {
+	s.Sig, s.TBSHash = sig, hashHex(tbsDER)
+	switch {
+	case s.SignerKind == "stale_sig" && s.ForeignSig != nil && s.ForeignTBS != s.TBSHash:
+		sig = s.ForeignSig
+	case s.SignerKind == "sigflip" || s.SignerKind == "stale_sig":
 		sig = append([]byte(nil), sig...)
 		sig[len(sig)/2] ^= 0x04
 	}
